@@ -108,7 +108,7 @@ def check_program(ctx, root, n, texts, family, schema, valid_expected=None, dups
             f.write(t)
         names.append(name)
     gen_path = os.path.join(case_dir, "gen-ok-c15")
-    os.symlink(ctx.paths["fakegen"], gen_path)
+    core.link_tool(ctx.paths["fakegen"], gen_path)
     k = len(texts)
     rng = ctx.rng("p/%s/%d" % (family, n))
     base_order = list(range(k)) + list(dups)
